@@ -13,7 +13,8 @@
 (* Printer state: physical x,y,z; G92 shifts ox,oy,oz (logical = physical  *)
 (* - shift); positioning mode abs; extruder mode eabs; unit; extruder      *)
 (* coordinate e; filament position fil and its high-water mark hi          *)
-(* (retraction depth = hi - fil); firmware-retract flag fw; homed flags.   *)
+(* (retraction depth = hi - fil); firmware-retract flag fw; homed flags;    *)
+(* modal feed rate.                                                        *)
 (***************************************************************************)
 EXTENDS Integers, Sequences
 
@@ -25,7 +26,8 @@ NZ(c, l) == HasV(c, l) /\ c.wm[l] # 0
 P0 == [x |-> 0, y |-> 0, z |-> 0, ox |-> 0, oy |-> 0, oz |-> 0,
        abs |-> TRUE, eabs |-> TRUE, unit |-> "mm",
        e |-> 0, fil |-> 0, hi |-> 0, fw |-> FALSE,
-       hx |-> FALSE, hy |-> FALSE, hz |-> FALSE]
+       hx |-> FALSE, hy |-> FALSE, hz |-> FALSE,
+       feed |-> 0]     \* modal feed rate (native units per minute, 0 = never set)
 
 Homed(p) == p.hx /\ p.hy /\ p.hz
 Ret(p) == p.hi - p.fil
@@ -50,7 +52,10 @@ ExecMove(p, c) ==
               ELSE 0
         nf == p.fil + de
     IN  [p EXCEPT !.x = nx, !.y = ny, !.z = nz, !.e = p.e + de, !.fil = nf,
-                  !.hi = IF nf > p.hi THEN nf ELSE p.hi]
+                  !.hi = IF nf > p.hi THEN nf ELSE p.hi,
+                  \* a feed rate of 0 is ignored by the firmware
+                  !.feed = IF HasV(c, "F") /\ Val(c, "F", p.unit) > 0
+                           THEN Val(c, "F", p.unit) ELSE p.feed]
 
 ExecG92(p, c) ==
     [p EXCEPT !.ox = IF HasV(c, "X") THEN p.x - Val(c, "X", p.unit) ELSE p.ox,
